@@ -243,6 +243,19 @@ def comprehensionise(stmts: List[ast.stmt], _loads: Optional[Dict[str, int]] = N
                 ok = True
                 leaf = None
                 while ok:
+                    # `if c: X[K] = A  else: X[K] = B`  is  `X[K] = A if c else B` (same for X.add / X.append of one element)
+                    if isinstance(cur, ast.If) and len(cur.body) == 1 and len(cur.orelse) == 1 and gens:
+                        a_, b_ = cur.body[0], cur.orelse[0]
+                        if isinstance(a_, ast.Assign) and isinstance(b_, ast.Assign) and len(a_.targets) == 1 and len(b_.targets) == 1 and \
+                                isinstance(a_.targets[0], ast.Subscript) and norm(a_.targets[0]) == norm(b_.targets[0]):
+                            cur = ast.copy_location(ast.Assign(targets=[a_.targets[0]], value=ast.IfExp(test=cur.test, body=a_.value, orelse=b_.value)), cur)
+                            ast.fix_missing_locations(cur)
+                        elif isinstance(a_, ast.Expr) and isinstance(b_, ast.Expr) and isinstance(a_.value, ast.Call) and isinstance(b_.value, ast.Call) and \
+                                norm(a_.value.func) == norm(b_.value.func) and len(a_.value.args) == 1 and len(b_.value.args) == 1 and not a_.value.keywords and \
+                                isinstance(a_.value.func, ast.Attribute) and a_.value.func.attr in ("add", "append"):
+                            cur = ast.copy_location(ast.Expr(value=ast.Call(func=a_.value.func, args=[ast.IfExp(test=cur.test, body=a_.value.args[0], orelse=b_.value.args[0])],
+                                                                             keywords=[])), cur)
+                            ast.fix_missing_locations(cur)
                     if isinstance(cur, ast.For) and not cur.orelse and len(cur.body) == 1:
                         gens.append(ast.comprehension(target=cur.target, iter=cur.iter, ifs=[], is_async=0))
                         cur = cur.body[0]
